@@ -21,7 +21,7 @@ RULE = ("per spec (1-3 Einsums, ENERGY|LATENCY on trade-off cost tables so the f
         "a baseline run in a fresh process (1 worker, PYTHONHASHSEED=0, no cache, no perturbation; run twice and required "
         "to be self-identical) is compared with runs that differ only in: a seeded permutation of execution order and of "
         "arrival order of every internal parallel() call (hook, separately and together), real loky pools with jitter "
-        "(n_jobs 4; thorough 2/4/16), PYTHONHASHSEED, a cold then warm cache_dir, and a cache_dir used before for a different request (a subset of the Einsums, then all; all, then the subset). A run's record is the multiset of "
+        "(n_jobs 4; thorough 2/4/16), PYTHONHASHSEED, a cold then warm cache_dir (spec loaded from ONE fixed file path so that the cache can hit; hits are observed through the number of stored entries), and a cache_dir used before for a different request (a subset of the Einsums, then all; all, then the subset). A run's record is the multiset of "
         "(energy, latency, usage, canonical tree) rows. non-trivial = the baseline front has >= 2 rows; distinct = (spec, "
         "perturbation); the number of distinct schedules actually applied is read from the hook's log")
 ASSUMPTIONS = ["only seeded permutations and a few real pool sizes are explored, not all interleavings",
